@@ -218,8 +218,13 @@ impl SplitterSet {
         }
     }
 
+    // A block whose states have no predecessors has no splitters and may be
+    // beyond the end of the list: return an empty list for such a block.
     fn take_list(&mut self, b: u32) -> SplitterList {
-        std::mem::take(&mut self.list[b as usize])
+        match self.list.get_mut(b as usize) {
+            Some(l) => std::mem::take(l),
+            None => SplitterList::default(),
+        }
     }
 
     fn add_splitter(&mut self, s: &Splitter) {
